@@ -729,6 +729,23 @@ def ref1(ctx: Ctx) -> None:
     reach = ctx.reach(mod)
     loops = [s for s in fn.body if isinstance(s, ast.For) and "gc.get_referents(" in norm(s.iter)]
     if len(loops) != 1:
+        deep = [s for s in ast.walk(fn) if isinstance(s, ast.For) and "gc.get_referents(" in norm(s.iter)]
+        at = deep[0] if len(deep) == 1 else None
+        if at is None:
+            # for r in <local>: where the local is gc.get_referents(...) on some paths only
+            for l_ in [x for x in ast.walk(fn) if isinstance(x, ast.For) and isinstance(x.iter, ast.Name)]:
+                srcs = [a_ for a_ in ast.walk(fn) if isinstance(a_, ast.Assign) and len(a_.targets) == 1 and norm(a_.targets[0]) == l_.iter.id and "gc.get_referents(" in norm(a_.value)]
+                if len(srcs) == 1:
+                    deep, at = [l_], srcs[0]
+        if len(deep) == 1 and at is not None:
+            from .opcodes import path_guards_of
+            gsd = [(norm(gx), pol) for gx, pol in path_guards_of(mod, at, fn)]
+            running = [g_ for g_ in gsd if "_running" in g_[0]]
+            if running:
+                ctx.R.fail("REF-3", mod, deep[0], f"the referent scan is skipped when `{'not ' if not running[0][1] else ''}{running[0][0][:70]}`: an async generator parked at an `await` inside asend()/__anext__ has "
+                           "ag_running set although its frame is suspended (and a frame's own generator can be marked running while a callee is observed), so active managers are missing from the fallback result",
+                           construct="referent scan skipped for running generators")
+                return
         raise AnalysisError("REF-1: referent scan vanished")
     loop = loops[0]
     rv = norm(loop.target)
